@@ -632,6 +632,10 @@ pub fn push_fragments(r: &mut Rng, out: &mut Vec<u8>, ntracks: u32, decode_time:
             if r.chance(1, 6) {
                 truns.push(gen_trun(r));
             }
+            if r.chance(1, 10) {
+                // a track fragment without any run (legal: it only announces defaults)
+                truns.clear();
+            }
             runs.push(Run { track: *t, tfhd_flags, truns, default_dur: *r.pick(&[1u32, 512, 1001]), tfdt_v1: r.chance(1, 2), has_tfdt: r.chance(9, 10), base_kind });
         }
         let moof_start = out.len() as u64;
